@@ -922,7 +922,7 @@ func c03(r *core.Run) {
 		// the 405/404 answers are not reachable once a handler was found: covered by D5/K2/dispatch (nothing runs after the handler)
 	})
 
-	r.Check("D5/K2/methods-allowed", "methodsAllowed skips the request's own method, lists a method exactly when its tree matches the path, and reports true only for a non-empty list", func(o *core.O) {
+	r.Check("D5/K2/methods-allowed", "methodsAllowed skips the request's own method, tries every method tree (the loop is left only when the map is exhausted), lists a method exactly when its tree matches the path, and reports true only for a non-empty list", func(o *core.O) {
 		var f *ssa.Function
 		if serve != nil {
 			for _, c := range core.Calls(serve, func(in ssa.Instruction) bool {
@@ -979,6 +979,22 @@ func c03(r *core.Run) {
 		for _, c := range apps {
 			if !core.DependsOn(core.Args(c)[1], isKey) {
 				o.Fail(p.InstrPos(c), "the value listed is not the tree's method")
+			}
+		}
+		// every tree is looked at: the loop over the method trees is left only when the map is exhausted
+		// (a loop that stops at the first other method that matches lists one method, chosen by map order)
+		for _, nxi := range core.Instrs(f, func(in ssa.Instruction) bool { _, ok := in.(*ssa.Next); return ok }) {
+			nx := nxi.(*ssa.Next)
+			more := core.BoolVal(func(v ssa.Value) bool {
+				e, ok := v.(*ssa.Extract)
+				return ok && e.Index == 0 && e.Tuple == ssa.Value(nx)
+			})
+			body, done := core.EdgesOf(f, more)
+			if len(body) == 0 {
+				continue
+			}
+			if w, ok := core.Reach(core.Q{From: b2Heads(body), Target: core.IsReturn, Cut: core.CutSet(done)}); ok {
+				o.Fail(p.InstrPos(w), "methodsAllowed leaves the loop over the method trees before all of them were tried: Allow lists only the methods seen up to there (which ones depends on map order)")
 			}
 		}
 		for _, c := range searches {
